@@ -851,7 +851,11 @@ func (s *clientSocket) _sendBuffers(volatile, forceSend bool, ackID *uint64, buf
 		}
 
 		s.stateMu.RLock()
-		sendImmediately := s.state == clientSocketConnStateConnected || s.state == clientSocketConnStateConnectPending
+		// While the CONNECT packet is pending, packets are buffered (they are flushed when
+		// the server's reply arrives). Otherwise they can reach the server before the CONNECT
+		// packet (which is sent from a seperate goroutine), and the server closes the whole
+		// connection when it receives a packet for a namespace that is not joined yet.
+		sendImmediately := s.state == clientSocketConnStateConnected
 		s.stateMu.RUnlock()
 		if sendImmediately || forceSend {
 			s.manager.packet(packets...)
